@@ -91,6 +91,7 @@ fn main() {
         "C09" => props::c09::run(&mk("C09")),
         "C10" => props::c10::run(&mk("C10")),
         "C11" => props::c11::run(&mk("C11")),
+        "C12" => props::c12::run(&mk("C12")),
         "C13" => props::c13::run(&mk("C13")),
         "C16" => props::c16::run(&mk("C16")),
         "C20" => props::c20::run(&mk("C20")),
